@@ -785,7 +785,30 @@ run_enc_like!(run_recipient, Carrier::Recipient, CoseRecipientBuilder, CoseRecip
 fn case(g: &mut Gen, ctx: &mut Ctx) -> CaseResult {
     let c = *g.pick(&[Carrier::Sign1, Carrier::Sign, Carrier::Mac, Carrier::Mac0, Carrier::Encrypt, Carrier::Encrypt0, Carrier::Recipient]);
     let n = g.below(13);
-    let ops: Vec<Op> = (0..n).map(|_| gen_op(g, c)).collect();
+    let mut ops: Vec<Op> = (0..n).map(|_| gen_op(g, c)).collect();
+    if c == Carrier::Sign && g.ratio(1, 5) {
+        // related headers: the body protected header and some signers' protected headers are the same
+        // header, or the same up to the sign of a floating-point zero (equal under `==`, other bytes)
+        let mut base = gen_small_header(g);
+        let deep = g.bool();
+        let z = |x: f64| if deep { Value::Array(vec![Value::from(1), Value::Float(x)]) } else { Value::Float(x) };
+        base.rest.push((Label::Int(300), z(0.0)));
+        let mut twin = base.clone();
+        twin.rest.last_mut().unwrap().1 = z(-0.0);
+        ops.insert(0, Op::Protected(base.clone()));
+        for op in ops.iter_mut() {
+            match op {
+                Op::AddCreated { sig, .. } | Op::AddDetached { sig, .. } | Op::AddSignature(sig) => {
+                    if g.ratio(2, 3) {
+                        sig.protected = built(if g.bool() { &twin } else { &base });
+                    }
+                }
+                _ => {}
+            }
+        }
+        ctx.class("history:signer-header-related-to-body-header");
+    }
+    let ops = ops;
     ctx.classf(format!("carrier:{:?}", c));
     let ncreate = ops.iter().filter(|o| matches!(o, Op::Create { .. } | Op::CreateDetached { .. } | Op::AddCreated { .. } | Op::AddDetached { .. })).count();
     ctx.classf(format!("create-helpers:{}", ncreate.min(4)));
